@@ -532,7 +532,7 @@ static void run_stream(FILE *in)
                             : econf_readDirsHistory(&files, &n, d1, d2, name, sfx, dl, cm);
       end_lib();
       printf("rc=%d n=%zu", e, e ? (size_t) 0 : n); print_logs();
-      if (e == ECONF_SUCCESS) { for (size_t i = 0; i < n; i++) { printf(" || "); eol = ' '; dump_inline(files[i]); econf_free(files[i]); } free(files); }
+      if (e == ECONF_SUCCESS) { for (size_t i = 0; i < n; i++) { printf(" || "); dump_inline(files[i]); econf_free(files[i]); } free(files); }
       else if (files) printf(" HISTORY-POINTER-SET-ON-ERROR");
       putchar('\n');
       free(d1); free(d2); free(name); free(sfx); free(dl); free(cm);
